@@ -2,9 +2,12 @@
    inside v is a character boundary of the source, so a well-typed value is neither VBad nor VPanic and every
    Position::new on its locations succeeds. *)
 From AidlV Require Import Model.Wrappers Model.Lexer Proofs.Totality.
+From AidlV Require Export Proofs.Words.
 
 Section Typing.
   Variable cx : ctx.
+  (* the level: has an Error diagnostic been pushed yet?  Only then may a TLoud option be None. *)
+  Variable loud : bool.
 
   Definition valid (off : N) : Prop := exists pre post, cx_src cx = pre ++ post /\ byte_len pre = off.
 
@@ -16,9 +19,11 @@ Section Typing.
 
   (* which texts a token of terminal column c can have: some regex of the lexer table that maps to c matched exactly it *)
   Definition token_lang (c : N) (text : str) : Prop :=
-    exists idx r sk rest fuel,
+    (exists idx r sk rest fuel,
       nth_error gen_lex_table idx = Some (r, sk) /\ gen_token_to_integer (N.of_nat idx) = Some c /\
-      match_len_fuel fuel r (text ++ rest) = Some (length text).
+      match_len_fuel fuel r (text ++ rest) = Some (length text)) /\
+    (* the longest-match rule with its tie-break: an IDENT is never a keyword or reserved word (Proofs/Keywords.v) *)
+    (c = ident_col -> ident_ok text).
 
   Definition ast_shape (name : string) (v : sem) : Prop :=
     match v with
@@ -37,8 +42,10 @@ Section Typing.
     | TTokOf c => match v with VTok s => token_lang c s | _ => False end
     | TLoc => match v with VLoc n => valid n | _ => False end
     | TString => match v with VString _ => True | _ => False end
+    | TQName => match v with VString s => qualified_ok s | _ => False end
     | TErr => match v with VErr e => err_ok e | _ => False end
     | TOpt t' => match v with VOpt None => True | VOpt (Some x) => has_type t' x | _ => False end
+    | TLoud t' => match v with VOpt None => loud = true | VOpt (Some x) => has_type t' x | _ => False end
     | TVec t' =>
         match v with
         | VVec l => (fix all (l : list sem) : Prop := match l with [] => True | x :: r => has_type t' x /\ all r end) l
@@ -55,8 +62,8 @@ Section Typing.
                end) ts l
         | _ => False
         end
-    | TAst name => ast_shape name v
-    | TKV => match v with VKV _ => True | _ => False end
+    | TAst name => ast_shape name v /\ sem_names_ok v
+    | TKV => match v with VKV kv => ident_ok (fst kv) | _ => False end
     | TBot => False
     end.
 
@@ -71,18 +78,18 @@ Section Typing.
   Qed.
 
   Lemma has_type_not_bad t : ~ has_type t VBad.
-  Proof. destruct t; cbn; auto. Qed.
+  Proof. destruct t; cbn; try tauto. Qed.
   Lemma has_type_not_panic t : ~ has_type t VPanic.
-  Proof. destruct t; cbn; auto. Qed.
+  Proof. destruct t; cbn; try tauto. Qed.
 
   (* ---- subtyping ---- *)
   Fixpoint sub (a b : vty) {struct a} : bool :=
     match a, b with
     | TBot, _ => true
-    | TTok, TTok | TLoc, TLoc | TString, TString | TErr, TErr => true
+    | TTok, TTok | TLoc, TLoc | TString, TString | TErr, TErr | TQName, TQName | TQName, TString => true
     | TTokOf c, TTok => true
     | TTokOf c, TTokOf c' => N.eqb c c'
-    | TOpt x, TOpt y | TVec x, TVec y => sub x y
+    | TOpt x, TOpt y | TVec x, TVec y | TLoud x, TLoud y | TLoud x, TOpt y => sub x y
     | TTuple xs, TTuple ys =>
         (fix go (xs ys : list vty) : bool :=
            match xs, ys with
@@ -97,20 +104,24 @@ Section Typing.
 
   Lemma sub_sound a : forall b v, sub a b = true -> has_type a v -> has_type b v.
   Proof.
-    induction a as [| c | | | | a IH | a IH | xs IH | n | |] using vty_ind'; intros b v Hs Ht.
+    induction a as [| c | | | | | a IH | a IH | a IH | xs IH | n | |] using vty_ind'; intros b v Hs Ht.
     - destruct b; cbn in Hs; try discriminate. exact Ht.
     - destruct b; cbn in Hs; try discriminate.
       + destruct v; cbn in *; auto.
       + apply N.eqb_eq in Hs. subst. exact Ht.
     - destruct b; cbn in Hs; try discriminate. exact Ht.
     - destruct b; cbn in Hs; try discriminate. exact Ht.
+    - destruct b; cbn in Hs; try discriminate; [destruct v; cbn in *; auto|exact Ht].
     - destruct b; cbn in Hs; try discriminate. exact Ht.
     - destruct b; cbn in Hs; try discriminate.
       destruct v; cbn in *; auto. destruct o; auto.
     - destruct b; cbn in Hs; try discriminate.
+      + destruct v; cbn in *; auto. destruct o; auto.
+      + destruct v; cbn in *; auto. destruct o; auto.
+    - destruct b; cbn in Hs; try discriminate.
       destruct v; try contradiction. apply has_type_vec. apply has_type_vec in Ht.
       induction Ht; constructor; auto.
-    - destruct b as [| | | | | | |ys| | |]; cbn in Hs; try discriminate.
+    - destruct b as [| | | | | | | | |ys| | |]; cbn in Hs; try discriminate.
       destruct v; try contradiction.
       cbn in Ht |- *. revert ys l Hs Ht. induction IH as [|x xs Hx Hxs IHxs]; intros ys l Hs Ht.
       + destruct ys; [|discriminate]. exact Ht.
@@ -146,3 +157,36 @@ Section Typing.
 
   Definition typed_triple (t : vty) (x : triple) : Prop := valid (tstart x) /\ valid (tend x) /\ has_type t (tval x).
 End Typing.
+
+(* has an Error been pushed? *)
+Definition is_error (d : diag) : bool := match d_kind d with DError => true | DWarning => false end.
+Definition errb (ds : list diag) : bool := existsb is_error ds.
+Lemma errb_app a b : errb (a ++ b) = errb a || errb b.
+Proof. apply existsb_app. Qed.
+Lemma errb_spec ds : errb ds = true -> exists d, In d ds /\ d_kind d = DError.
+Proof. intros H. apply existsb_exists in H as [d [I E]]. exists d. split; [exact I|]. unfold is_error in E. destruct (d_kind d); [reflexivity|discriminate]. Qed.
+
+(* raising the level keeps every typing *)
+Lemma has_type_lift cx l l' t : forall v, has_type cx l t v -> has_type cx (l || l') t v.
+Proof.
+  induction t as [| c | | | | | a IH | a IH | a IH | xs IH | n | |] using vty_ind'; intros v H; try exact H.
+  - destruct v; try contradiction. destruct o as [x|]; [apply IH; exact H|exact I].
+  - destruct v; try contradiction. destruct o as [x|]; [apply IH; exact H|]. cbn in H |- *. subst. reflexivity.
+  - destruct v; try contradiction. apply has_type_vec. apply has_type_vec in H. induction H; constructor; auto.
+  - destruct v; try contradiction. cbn in H |- *. revert l0 H. induction IH as [|x xs Hx Hxs IHxs]; intros l0 H; [exact H|].
+    destruct l0 as [|z l0]; [contradiction|]. destruct H as [H1 H2]. split; [apply Hx; exact H1|apply IHxs; exact H2].
+Qed.
+
+Lemma has_type_lift_eq cx l l2 t v : (l = true -> l2 = true) -> has_type cx l t v -> has_type cx l2 t v.
+Proof.
+  intros Hl H. destruct l.
+  - rewrite (Hl eq_refl). exact H.
+  - apply (has_type_lift cx false l2). exact H.
+Qed.
+
+Lemma typed_triple_lift cx l l' t x : typed_triple cx l t x -> typed_triple cx (l || l') t x.
+Proof. intros [A [B C]]. split; [exact A|split; [exact B|apply has_type_lift; exact C]]. Qed.
+
+
+Lemma Forall2_typed_lift cx l l' tys xs : Forall2 (typed_triple cx l) tys xs -> Forall2 (typed_triple cx (l || l')) tys xs.
+Proof. induction 1; constructor; [apply typed_triple_lift; assumption|assumption]. Qed.
